@@ -412,17 +412,32 @@ def describe_atoms(atoms):
     return "\n".join(out)
 
 
-def one(tag, src_text, spec_text):
+def parse_classes(text):
+    """class files: lines 'name := body' - each becomes its own regex over the shared atoms"""
+    out = []
+    for line in text.split("\n"):
+        m = re.match(r"^([a-z_0-9]+)\s*:=\s*(.*?)\s*$", line)
+        if m:
+            out.append((m.group(1), P("(?x-u)^(?:" + m.group(2) + ")$").top()))
+    return out
+
+
+def one(tag, src_text, spec_text, classes_text=None):
     src = P(src_text).top()
     spec = P(expand_macros(spec_text)).top()
+    extras = parse_classes(classes_text) if classes_text else []
     sets = set()
     sets_of(src, sets)
     sets_of(spec, sets)
+    for _, x in extras:
+        sets_of(x, sets)
     atoms = partition(sorted(sets))
     out = f"(* {tag}: {len(atoms)} atoms\n{describe_atoms(atoms)}\n*)\n"
     out += atom_of_def(f"{tag}_atom_of", atoms)
     out += f"Definition {tag}_src : regex' :=\n  {to_rx(src, atoms)}.\n"
     out += f"Definition {tag}_spec : regex' :=\n  {to_rx(spec, atoms)}.\n"
+    for name, x in extras:
+        out += f"Definition {tag}_cls_{name} : regex' :=\n  {to_rx(x, atoms)}.\n"
     return out, len(atoms)
 
 
@@ -435,8 +450,11 @@ def generate():
             "From Coq Require Import NArith PArith.\n"
             "From RelationAlgebra Require Import kleene regex.\n"
             "Open Scope N_scope.\n\n")
-    a, na = one("semver", sv, sv_spec)
-    b, nb = one("pep440", pp, pp_spec)
+    def opt(name):
+        p = os.path.join(HERE, "spec", name)
+        return open(p, encoding="utf-8").read() if os.path.exists(p) else None
+    a, na = one("semver", sv, sv_spec, opt("semver_classes.rx"))
+    b, nb = one("pep440", pp, pp_spec, opt("pep440_classes.rx"))
     return head + a + "\n" + b, {"semver_atoms": na, "pep440_atoms": nb, "semver_regex": sv, "pep440_regex": pp}
 
 
